@@ -10,7 +10,7 @@ AllCors1 == {"grad-space-before", "grad-space-after", "arg-space", "subst-space"
 \* Fam1(ml, mo, ms, V, A, N, F, T, G, E, W, X, FT, M, C, S)
 \* length deduction: unknown arguments linked by sums and products, decided by vectors of length 2 / 3 or by a gradient index
 FamLen == [Fam1(3, 3, 3, {"r", "s"}, {"u", "v"}, None, None, I1, I1, None, {"scope"}, None, {"grad"}, None, None, None) EXCEPT !.PK = TRUE]
-FamLen4 == [Fam1(4, 4, 4, {"r"}, {"u", "v", "p"}, None, None, I1, I1, None, {"scope"}, None, {"grad"}, None, None, None) EXCEPT !.PK = TRUE]
+FamLen4 == [Fam1(4, 3, 4, {"r"}, {"u", "v", "p"}, None, None, I1, I1, None, {"scope"}, None, {"grad"}, None, None, None) EXCEPT !.PK = TRUE]
 \* chains of links: four unknown leaves, one vector, sums of scopes, the gradient
 FamChain == [Fam1(4, 5, 4, {"r"}, {"u", "v", "p"}, None, None, I1, I1, None, {"scope"}, None, {"grad", "noterm"}, None, None, None) EXCEPT !.PK = TRUE]
 \* two letters, arguments with two axes, the dirac
